@@ -91,6 +91,8 @@ class StdSem(Semantics):
     def arg_tag(self, path, body, term, i):
         if len(term['args']) <= i:
             return None
+        if 'fn' in term['args'][i]:
+            return 'fn:' + strip_generics(term['args'][i]['fn'])     # a function handed over as a value
         pl = op_place(term['args'][i])
         if not self.whole(pl):
             return None
@@ -198,6 +200,9 @@ class StdSem(Semantics):
         if t is not None:
             self._pending = (k, t)
             return
+        if rv['k'] in ('use', 'cast') and isinstance(rv.get('op'), dict) and 'fn' in rv['op']:
+            self._pending = (k, 'fn:' + strip_generics(rv['op']['fn']))      # `let f = is_json;` / a function item coerced to a pointer
+            return
         if rv['k'] == 'agg' and rv.get('ak') == 'adt':
             adt = strip_generics(rv['adt'])
             if not rv.get('ops') and adt not in (OPT, RES, CF) and rv.get('var') and self.variant_index(adt, rv['var']) is not None:
@@ -216,6 +221,12 @@ class StdSem(Semantics):
                 self._pending = (k, 'cf:' + rv['var'])
 
     def call(self, interp, path, body, bb, term, name):
+        if not name and term.get('fp') is not None:
+            # a call through a function pointer whose target is known on this path (`check(headers, is_json)` .. `is_accepted(&mime)`)
+            fpl = op_place(term['fp'])
+            ft = path.tags.get((body.id, fpl['l'])) if fpl is not None and not fpl.get('p') else None
+            if ft and ft.startswith('fn:'):
+                name = ft[3:]
         short = strip_generics(name)
         d = term.get('dest')
         dk = (body.id, d['l']) if d is not None and not d.get('p') else None
